@@ -3,7 +3,7 @@
    flate.Reader to, on every run, and what compress/flate and zlib are
    compared with. Theorems here: the decoder's verdict and output are a
    function of the bits it consumed only. *)
-From V Require Import Base.Prelude Base.Prog Base.ProgThms Flate.Spec Flate.Thms Flate.Safe Flate.Fuel.
+From V Require Import Base.Prelude Base.Prog Base.ProgThms Flate.Spec Flate.Thms Flate.Safe Flate.Fuel Flate.Canon Flate.CanonLink Base.FuelThms.
 
 (* the decoder cannot look at its source except bit by bit, in order *)
 Theorem flate_decoder_is_local : forall d, eof_free (inflate_prog d).
@@ -42,3 +42,39 @@ Theorem flate_decoder_total : forall input,
   end.
 Proof. exact inflate_total. Qed.
 Print Assumptions flate_decoder_total.
+
+(* every tree the decoder accepts decodes exactly the canonical code of RFC 1951 3.2.2:
+   each symbol's code word, followed by anything, is decoded to that symbol, consuming
+   exactly the word ... *)
+Theorem flate_tree_decodes_canonical_code : forall lens fake t s l c rest pos out len,
+  (2 <= length lens)%nat -> NoDup (map fst lens) ->
+  build_tree lens fake = Some t ->
+  In (s, l, c) (canonical lens) ->
+  c < 2 ^ l /\
+  run (sym_tree t) (mkAst (msb_bits (N.to_nat l) c ++ rest) pos out len)
+  = Done (Some s) (mkAst rest (pos + l) out len).
+Proof. exact decoder_tree_decodes_canonical_code. Qed.
+Print Assumptions flate_tree_decodes_canonical_code.
+
+(* ... and is complete: every long enough bit string decodes to a symbol of the code *)
+Theorem flate_tree_is_complete : forall lens fake t bits pos out len,
+  (2 <= length lens)%nat -> NoDup (map fst lens) ->
+  build_tree lens fake = Some t ->
+  (N.to_nat (max_len lens) <= length bits)%nat ->
+  exists s rest,
+    run (sym_tree t) (mkAst bits pos out len)
+    = Done (Some s) (mkAst rest (pos + N.of_nat (length bits - length rest)) out len) /\
+    In s (map fst lens).
+Proof. exact decoder_tree_is_complete. Qed.
+Print Assumptions flate_tree_is_complete.
+
+(* the length lists a dynamic block header yields have pairwise different symbols (the
+   NoDup hypothesis above is met by what the header parser produces) *)
+Theorem flate_header_lists_have_distinct_symbols : forall tree maxSyms numLit,
+  post (fun lens =>
+          NoDup (map fst (filter (fun sl => fst sl <? numLit) lens)) /\
+          NoDup (map fst (map (fun sl => (fst sl - numLit, snd sl))
+                              (filter (fun sl => negb (fst sl <? numLit)) lens))))
+       (loop 10 (clen_body tree maxSyms) (mkClst 0 0 [])).
+Proof. exact header_lists_nodup. Qed.
+Print Assumptions flate_header_lists_have_distinct_symbols.
